@@ -9,14 +9,17 @@ import (
 )
 
 type DecSpec struct {
-	Kind  string `json:"kind"`           // sync | plain | pct | counters | listener | ewma | elapsed | name
+	Kind  string `json:"kind"`           // sync | plain | pct | counters | listener | ewma | elapsed | name | avgeta | avgspeed | ewmaeta | ewmaspeed | spindec | emptyname
 	W     int    `json:"w,omitempty"`    // WC.W
 	C     int    `json:"c,omitempty"`    // WC.C flags (DSyncWidth is added for kind sync)
 	Wrap  string `json:"wrap,omitempty"` // "" | oncomplete | onabort | both | meta | deep
 	Slow  int    `json:"slow,omitempty"` // microseconds slept inside the DecorFunc (0 = none, -n = n yields)
 	Vary  int    `json:"vary,omitempty"` // how much the text width varies from frame to frame
 	Depth int    `json:"depth,omitempty"`
+	Sync  bool   `json:"sync,omitempty"` // any kind: the decorator opts into width synchronisation
 }
+
+func (d DecSpec) synced() bool { return d.Kind == "sync" || d.Sync }
 
 type BarSpec struct {
 	Total     int64     `json:"total"`
